@@ -583,9 +583,9 @@ class FuncAdd(ValueFunc):
             return result
 
         if a.isDate() and b.isNumerical():
-            return ValueDate(
-                to_date(to_oa_date(a.value) + args.getAsDecimal("b").value)
-            )
+            return ValueDecimal(
+                to_oa_date(a.value) + args.getAsDecimal("b").value
+            ).asDate()
 
         if (a.isString() and b.isAtomic()) or (a.isAtomic() and b.isString()):
             return ValueString(a.asString().value + b.asString().value)
@@ -3888,9 +3888,9 @@ class FuncSub(ValueFunc):
             if b.isDate():
                 diff = to_oa_date(a.value) - to_oa_date(b.value)
                 return ValueInt(diff)
-            return ValueDate(
-                to_date(to_oa_date(a.value) - args.getAsDecimal("b").value)
-            )
+            return ValueDecimal(
+                to_oa_date(a.value) - args.getAsDecimal("b").value
+            ).asDate()
 
         if a.isNull() or b.isNull():
             return NULL
